@@ -19,7 +19,7 @@ invariant k_1 == n-2i, n unchanged, result/abserr arbitrary), one call on every 
 from fractions import Fraction
 import numpy as np
 import z3
-from ndvc import solve, cut
+from ndvc import solve, cut, xcheck
 from ndvc.sym import R, real, lift, CTX, explore, NeedsConcrete, _frac, hyps
 from ndvc.arr import SymArr, asobj
 from ndvc.overlay import installed
@@ -129,6 +129,15 @@ def run_epsalg(N):
             return {}
         outs, tabs = paths[0].value
         H = pre
+        from fractions import Fraction as Fr
+        for sd, seq in enumerate([[1.0, 0.5, 0.875, 0.5625, 0.8125, 0.59375, 0.7890625, 0.61, 0.77][:N], [0.5, -1.25, 2.0, 0.75, -0.125, 1.5, 3.25, -2.0, 0.25][:N]]):
+            def native(seq=seq):
+                ea = ex.EpsAlg()
+                o_, t_ = [], []
+                for v in seq:
+                    o_.append(ea(v)); t_.append(list(ea.epstab))
+                return o_, t_
+            xcheck.defer('epsalg:engine==CPython[sequence%d]' % sd, paths, {'s%d' % k: Fr(seq[k]) for k in range(N)}, native, rtol=1e-7, atol=1e-9)
         for n in range(N):
             kk = 2 * (n // 2)
             want = eps[(kk, n - kk)]
@@ -149,6 +158,7 @@ def run_epsalg(N):
             solve.fact('epsalg:term%d:list-holds-the-anti-diagonal' % n, ok)
         if N >= 3:
             solve.twin('epsalg:term2-returns-the-raw-term', lift(outs[2]).t == s[2].t, H)
+    xcheck.flush()
     return {}
 
 
@@ -298,6 +308,12 @@ def run_first():
                ab(sss * s1.t) > _frac(Fraction(1e-4))]
         paths = explore(run, pre=pre, max_paths=64)
         solve.fact('first:no-exception', all(p.exc is None for p in paths), note=str([repr(p.exc) for p in paths if p.exc][:1]))
+        from fractions import Fraction as Fr
+        for tri in [(1.0, 1.5, 1.75), (2.0, -1.0, 0.5), (0.5, 4.0, -3.0)]:
+            def native(tri=tri):
+                d = ex.Dea(limexp=7)
+                return [tuple(d(v)) for v in tri], d._n
+            xcheck.defer('first:engine==CPython%s' % (tri,), paths, {'s0': Fr(tri[0]), 's1': Fr(tri[1]), 's2': Fr(tri[2])}, native, rtol=1e-9, atol=1e-300)
         got_shanks = []
         for pi, p in enumerate(paths):
             if p.exc is not None:
@@ -319,6 +335,7 @@ def run_first():
         e0, e1, e2 = L + a, L + a * q, L + a * q * q
         solve.prove('first:exact-Shanks-identity(shared-with-dea3)', e1.t + 1 / (1 / (e2 - e1).t - 1 / (e1 - e0).t) == L.t,
                     [a.t != 0, q.t != 0, q.t != 1])
+    xcheck.flush()
     return {}
 
 
